@@ -13,7 +13,7 @@ FAMS = [schedgen.gen_migrate, gen_migrate_ss, schedgen.gen_mig_switch, schedgen.
 NAME_RE = r"^C13_"
 MANIFEST = {
     "text": "Theorems (Coq, every number of units/pools, every interleaving of the scheduler LTS whose labels are the ABT_VERIF hook "
-            "records): a push always goes to the unit's associated pool and the unit was in no pool before, a queued unit is never in the middle of a migration (so the pool it is popped from is the pool it was pushed to). Tie: generated scenarios run on the real runtime (1-4 streams, FIFO/FIFO_WAIT/RANDWS pools, all predefined "
+            "records): a push always goes to the unit's associated pool and the unit was in no pool before, a queued unit is never in the middle of a migration (so the pool it is popped from is the pool it was pushed to); the request bit is set only after a target was stored, the handler moves the unit to exactly the stored target, calls the callback only between the pool change and the clearing of the request (Properties_SchedMig.v). The LTS admits the loss of a request issued while another is being handled (C13_second_request_lost_refuted: finding F6, repaired in /repo by a re-check the LTS does not model); that no acknowledged request is lost is therefore checked by the gen_f6 scenario and the monitors (acknowledged => target stored inside the call; final pool = last acknowledged target; callback count), not by a theorem. Tie: generated scenarios run on the real runtime (1-4 streams, FIFO/FIFO_WAIT/RANDWS pools, all predefined "
             "schedulers, ULTs/tasklets/external threads); every recorded atomic action must be enabled in the model with the recorded "
             "values (state loads, request bits, num_blocked, queue emptiness); API-level monitors (entry counts, arguments, return codes, "
             "pool sizes at quiescence, join/xstream-join postconditions, watchdog) run on every execution.",
